@@ -428,6 +428,7 @@ func (x *Exec) litUnit(u *Unit) {
 		st.assume(tNot(tEq(c, nullRef)))
 		x.chSetFlag(st, "own", c, tTrue)
 		x.chSetFlag(st, "closed", c, tFalse)
+		x.chSetFlag(st, "drained", c, tFalse) // exclusively owned: nobody else can have closed it
 		if u.Proc.Opts["closer"] == "" {
 			x.chSetInt(st, "shares", c, tInt(0))
 		}
@@ -445,6 +446,16 @@ func (x *Exec) litUnit(u *Unit) {
 		x.chSetFlag(st, "closed", c, tFalse)
 		name, m, tr := x.chTrace(st, "sent", c)
 		st.maps[name] = tStore(m, c, Term{S: "emp_" + tr, Sort: tr})
+	}
+	for _, nm := range splitList(u.Proc.Opts["closes"]) {
+		// a channel this goroutine may close although its send side belongs to someone else
+		if c, ok := env0.lookup(nm); ok {
+			x.chSetFlag(st, "mayclose", c, tTrue)
+			x.chSetFlag(st, "closed", c, tFalse)
+			x.chSetInt(st, "shares", c, tInt(0))
+		} else {
+			x.problems = append(x.problems, "closes: unknown channel "+nm)
+		}
 	}
 	for _, nm := range splitList(u.Proc.Opts["slot"]) {
 		if c, ok := env0.lookup(nm); ok {
@@ -541,6 +552,7 @@ func (x *Exec) checkPost(u *Unit, e, entry *State, mk func(*State, bool) *CEnv, 
 	env.old = entry
 	env.results = res
 	x.applySets(e, env, pc, n)
+	x.applyGSets(e, env, pc, n)
 	if env.impl != nil {
 		// object invariant is re-established
 		for i, c := range env.impl.ic.ObjInv {
